@@ -158,7 +158,7 @@ CLAIMS.update({
  'C13': dict(
     text='Proof (Coq), partial + correspondence. Theorems: any pipeline of row-wise frame stages is one function of the row (frame_pipeline_is_rowwise); for a quoted triples map in subject or in object position over the same rows, '
          'every statement is << t >> p o [g] (resp. s p << t >> [g]) with t exactly the triple the generation rules give the quoted map for that row, and none iff a part is missing (quoted_subject_embeds_the_quoted_triple_partial, '
-         'quoted_rule_statements_partial, quoted_object_embeds_the_quoted_triple_partial, quoted_object_rule_statements_partial); only asserted rules contribute and assertedness is inherited from the triples map (only_asserted_rules_contribute, rules_inherit_assertedness). '
+         'quoted_rule_statements_partial, quoted_object_embeds_the_quoted_triple_partial, quoted_object_rule_statements_partial); only asserted rules contribute and assertedness is inherited from the triples map (only_asserted_rules_contribute, rules_inherit_assertedness); for every document and nesting depth the generation rules quote a triples map the same whether or not it is asserted, the flags only select which triples maps contribute statements of their own (quoting_does_not_depend_on_assertedness, assertedness_only_selects_the_contributing_triples_maps, Proofs/DocAssertP.v). '
          'Correspondence: nestings of depth 1-3, subject / object / both, joins, asserted / non-asserted, NULLs, against the Engine model and the (depth-recursive) Spec.',
     note='Document level: for documents of plain triples maps and triples maps that quote a plain one in their subject map (engine_document_with_quoted_subjects_is_generation_rules_document) or in object maps '
          '(engine_document_with_quoted_objects_is_generation_rules_document), one level, same rows, asserted or not: engine(document) = generation rules(document), both formats. '
